@@ -95,6 +95,8 @@ class SetupRig:
         self.sensors_seen = False
         self.th_decodable = False    # a thermostat answer was handled after the sensor data told how many there are
         self.extra = []
+        self.ignored_waits = 0
+        self.last_ignored = False
 
         async def on_loaded(value):
             self.loaded_at = setm.ms(self.loop.time())
@@ -182,6 +184,9 @@ class SetupRig:
             nt = loop.next_timer()
             if nt is None or target < nt:
                 loop.settle(until=target)
+            else:
+                self.ignored_waits += 1     # would reach the pending timer: not an event (the caller drops it from the history)
+                self.last_ignored = True
         elif p[0] == "t":
             nt = loop.next_timer()
             if nt is not None:
@@ -246,11 +251,16 @@ def run_history(events_, mixers=True, thermostats=True, minimal=()):
     rig = SetupRig(mixers, thermostats, minimal)
     try:
         groups, times = [], []
-        for e in events_:
+        ignored = []
+        for i, e in enumerate(events_):
+            rig.last_ignored = False
             groups.append(rig.apply(e))
             times.append(rig.now())
+            if rig.last_ignored:
+                ignored.append(i)
         summ = rig.summary()
         summ["times"] = times
+        summ["ignored"] = ignored
         return groups, summ
     finally:
         rig.close()
